@@ -33,6 +33,10 @@ theorem putUvarint_length_le : ∀ (k n : Nat), n < 128 ^ (k + 1) → (putUvarin
       have := putUvarint_length_le k (n / 128) this
       simp; omega
 
+theorem writeMessage_frame_of_lt (data : List Nat) (h : data.length < 2 ^ 35) : writeMessage data = some (frame data) := by
+  have : (putUvarint data.length).length ≤ 5 := putUvarint_length_le 4 data.length (by simpa using h)
+  simp [writeMessage, frame, this]
+
 /-! ### readByte -/
 
 theorem readByte_flatten : ∀ (cs : Chunks) (b : Nat) (rest : List Nat), cs.flatten = b :: rest →
